@@ -124,7 +124,14 @@ func bfRangeSetup(s *rt.Sim, tier string) func() {
 				return nil
 			}))
 		}
-		cliOpts = append(cliOpts, blockfetch.WithBatchDoneFunc(func(blockfetch.CallbackContext) error { completions++; return nil }))
+		// knob (own stream): the application does not ask to be told when a batch is complete
+		// (no BatchDoneFunc); completion is then observed through the blocks themselves
+		noBatchDone := rt.Choose("cfg.x", 3) == 2
+		if !noBatchDone {
+			cliOpts = append(cliOpts, blockfetch.WithBatchDoneFunc(func(blockfetch.CallbackContext) error { completions++; return nil }))
+		} else {
+			rt.Hit("bf.no-batch-done-callback")
+		}
 		// arm (own stream of draws): the client hands the blocks of a range to a real BlockPipeline
 		// instead of the block callback; the pipeline's ApplyFunc is then "the block callback"
 		var pl *pipeline.BlockPipeline
@@ -186,8 +193,20 @@ func bfRangeSetup(s *rt.Sim, tier string) func() {
 		expectCompletions := 0
 		for r := 0; r < rounds; r++ {
 			before := len(served)
-			err := cConn.BlockFetch().Client.GetBlockRange(samplePoint(uint64(r)), samplePoint(uint64(r+5)))
+			var err error
+			callRet := false
+			go func() {
+				err = cConn.BlockFetch().Client.GetBlockRange(samplePoint(uint64(r)), samplePoint(uint64(r+5)))
+				callRet = true
+			}()
+			for i := 0; i < 3000 && !callRet; i++ {
+				sleep(200 * time.Millisecond)
+			}
 			if pair.A.Deadline+pair.B.Deadline > 0 || keepAliveTimedOut(cw, sw) {
+				return
+			}
+			if !callRet {
+				rt.Violate("C23/range-request-hangs", "range request %d (after %d earlier ones that were served completely) had not returned after 10 simulated minutes; client errors %v, server errors %v", r, r, cw.errs, sw.errs)
 				return
 			}
 			nserved := len(served) - before
@@ -200,6 +219,14 @@ func bfRangeSetup(s *rt.Sim, tier string) func() {
 				continue
 			}
 			expectCompletions++
+			if noBatchDone {
+				// the last block of the batch having been delivered is the completion
+				for i := 0; i < 3000 && len(delivered) < len(served) && len(cw.errs) == 0 && len(sw.errs) == 0; i++ {
+					sleep(200 * time.Millisecond)
+				}
+				sleep(time.Second)
+				completions = expectCompletions
+			}
 			// wait for the batch to complete
 			for i := 0; i < 3000 && completions < expectCompletions && len(cw.errs) == 0 && len(sw.errs) == 0; i++ {
 				sleep(200 * time.Millisecond)
